@@ -21,9 +21,11 @@ func savePairCmd(args []string) int {
 	scfile := fs.String("scenarios", "", "scenario file (JSON lines)")
 	stress := fs.Int("stress", 1500, "free-running stage, milliseconds (0: none)")
 	out := fs.String("out", "savepair.ndjson", "trace output")
+	names := fs.Bool("names", false, "scenarios of DagNames.tla (create / rename of the same target) instead of DagStoreConc.tla")
 	fs.Parse(args)
 	log.SetOutput(io.Discard)
 	var scs []rig.SavePairScenario
+	var nss []rig.NamesScenario
 	if *scfile != "" {
 		f, err := os.Open(*scfile)
 		if err != nil {
@@ -33,6 +35,15 @@ func savePairCmd(args []string) int {
 		s := bufio.NewScanner(f)
 		for s.Scan() {
 			if len(s.Bytes()) == 0 {
+				continue
+			}
+			if *names {
+				var ns rig.NamesScenario
+				if err := json.Unmarshal(s.Bytes(), &ns); err != nil {
+					fmt.Fprintln(os.Stderr, "INFRA", err)
+					return 2
+				}
+				nss = append(nss, ns)
 				continue
 			}
 			var sc rig.SavePairScenario
@@ -61,9 +72,12 @@ func savePairCmd(args []string) int {
 	for _, sc := range scs {
 		rig.RunSavePair(sc, base, func(e rig.Ev) { enc.Encode(e); n++ })
 	}
-	if *stress > 0 {
+	for _, ns := range nss {
+		rig.RunNames(ns, base, func(e rig.Ev) { enc.Encode(e); n++ })
+	}
+	if *stress > 0 && !*names {
 		rig.SavePairStress(base, time.Duration(*stress)*time.Millisecond, func(e rig.Ev) { enc.Encode(e); n++ })
 	}
-	fmt.Printf("{\"scenarios\": %d, \"events\": %d}\n", len(scs), n)
+	fmt.Printf("{\"scenarios\": %d, \"events\": %d}\n", len(scs)+len(nss), n)
 	return 0
 }
